@@ -69,9 +69,10 @@ class Concurrent(Harness):
             world.peer_send = on_send
 
             async def caller(j):
-                if self.pinned and j == 0:
+                fixed = self.pinned and getattr(self, "pinned_offsets", True)
+                if fixed and j == 0:
                     off = 0
-                elif self.pinned and 1 <= j < n - 1:
+                elif fixed and 1 <= j < n - 1:
                     off = script.delay(j, "off", 0, hi=2 * T - 1)
                 else:
                     off = script.delay(j, "off", 0, hi=(3 if n > 2 else 2) * T)
